@@ -35,6 +35,22 @@ T = {
  'C20-C': ('C20', 'XalanDOMString::append(const XalanDOMChar*, n): the "no buffer" branch taken for every empty string', 'a string emptied by an operation that keeps the terminator (resize(0), erase to nothing, ...) and then appended to through a XalanDOMChar*-based form'),
  'C20-D': ('C20', 'XalanList::splice(pos, list, it): pos.prev cached before unlinking', 'single-element splice within one list with pos == next(element) (a no-op in std::list): node orphaned, backward traversal loops'),
  'C20-B': ('C20', 'XalanMap::doCreateEntry(): the catch block no longer marks the recycled entry erased', 'a key erased recently (slot still in its bucket), re-insert into the same bucket, bucket vector full, bucket-growth allocation refused: find() returns a dead entry'),
+ 'C03-E': ('C03', 'ElemNumber::formatNumberList(): the guard "theVectorSize > 1" around the trailing-token detection removed', 'xsl:number whose format has no alphanumeric token at all (".", "-", ") "): the token iterator is dereferenced at end(): heap over-read, garbage output or SIGSEGV'),
+ 'C03-F': ('C03', 'FunctionEvaluate::doExecute(): setInStylesheet(true) on the temporary XPath', 'xalan:evaluate() / dyn:evaluate() whose string is itself a literal or a number: the result refers to a token of the destroyed XPath (use after free on first use)'),
+ 'C04-E': ('C04', 'XalanOutputStream::canTranscodeTo(): a 256-entry table of the transcoder answers that setOutputEncoding() never clears', 'one stream and writer receive two documents in different encodings (ISO-8859-1 then US-ASCII): characters above 0x7F go raw to the ASCII transcoder'),
+ 'C04-F': ('C04', 'XalanNamespacesStack::findEntry(): the backwards search runs over the whole deque instead of the range ending at m_position', 'an element declaring two or more namespaces locally is closed and a later sibling subtree needs one of them again: the declaration is omitted (not namespace-well-formed)'),
+ 'C05-E': ('C05', 'XercesDocumentWrapper BuildWrapperTreeWalker::startNode: the last-child link of a parent is only set for its first child', 'a Xerces-DOM-backed source and xsl:number level="any" (the backwards document walk uses getLastChild())'),
+ 'C05-F': ('C05', 'StdBinInputStream::readBytes(): readsome() instead of read()', 'a std::istream without look-ahead (cin, a stream buffer that only produces data when asked): end of input is reported at once'),
+ 'C06-E': ('C06', 'StylesheetExecutionContextDefault::reset(): cleanUpTransients() only when m_formatterListeners is non-empty', 'a transformation into a caller-supplied FormatterListener that calls key() and aborts, then the same parsed source with a stylesheet declaring the same key name differently: stale key table'),
+ 'C06-F': ('C06', 'StylesheetExecutionContextDefault::getNodeSetByKey(): one-entry cache of the resolved key QName keyed by the lexical name', 'key(\'p:k\') in one transformation, then a stylesheet binding p to another namespace on the same transformer'),
+ 'C07-E': ('C07', 'StylesheetRoot::getNodeSetByKey(): an "in construction" marker (mutable member of the shared stylesheet) raising a recursion error', 'two transformations sharing a compiled stylesheet, one entering key() while the other builds the key table of the same document; or a failure inside the key-table construction'),
+ 'C07-F': ('C07', 'XercesDocumentWrapper constructor: m_mappingMode(!buildWrapper) - threadSafe no longer forces a fully built wrapper', 'XercesParserLiaison::createDocument(dom, threadSafe = true, buildWrapper = false) shared by concurrent first traversals'),
+ 'C17-E': ('C17', 'StylesheetExecutionContextDefault::createMatchPattern(): off-by-one in the test that keeps prefixed patterns out of the pattern cache', 'xsl:number without count on a prefixed element whose local name has one character, and the same QName bound to another namespace later in the transformation'),
+ 'C17-F': ('C17', 'ElemNumber::findPrecedingOrAncestorOrSelf(): getParentNode() instead of DOMServices::getParentOfNode()', 'xsl:number level="any" whose current node is an attribute and whose count pattern matches elements'),
+ 'C19-E': ('C19', 'StylesheetExecutionContextDefault::returnXResultTreeFrag(): the key table of the fragment is destroyed but its map entry is not erased', 'key() on the nodes of a result tree fragment (exsl:node-set) in a transformation that then fails: the table is destroyed twice'),
+ 'C19-F': ('C19', 'XalanOutputStream::setOutputEncoding(): m_transcoder not zeroed after destroyTranscoder()', 'the encoding of one stream set twice with the second call being UTF-16 or failing (no xsl:output method and an html root element: the processor switches serializer mid-run)'),
+ 'C20-E': ('C20', 'XalanMap::rehash(): the new bucket table gets at least m_minBuckets buckets while entries are placed modulo the requested size', 'a copy of a small map (1-15 entries) grown past its first rehash: keys not found, duplicates'),
+ 'C20-F': ('C20', 'XalanVector::insert(pos, n, value): > changed to >= so an insertion that exactly fills the capacity reallocates', 'single-element insert not at end() with size()+1 == capacity(): the returned iterator dangles'),
 }
 for name, (prop, change, needs) in sorted(T.items()):
     d = os.path.join(HERE, 'seeded', name)
